@@ -71,7 +71,8 @@ CONSTANTS KindAlphas,\* the <<kind, alphabet>> pairs of the run (MC_Encoders.tla
                      \* kind: "identity" | "string" | "numeric" | "missing" | "missing_numeric" | "missing_custom" | "missing_onehot"
                      \*       | "onehot" | "factor" | "categorical"
                      \* alphabet: "abc" | "mixed" | "ints" (needs-fit kinds), "onehot_missing", "text" (the always-fit kinds)
-          Size,      \* "s" | "m" | "l": how much of the alphabet (hist); "q" | "t": how many spellings (float)
+          Size,      \* "s" | "m" | "l": how much of the alphabet (hist); "g": the alphabet of "s" with object 1 constructed from
+                     \* given values instead of unfit; "q" | "t": how many spellings (float)
           MaxCalls,  \* calls per history
           MaxObjs,   \* encoder objects per history
           Mode,      \* "hist" | "float"
@@ -256,37 +257,38 @@ FitEncs(st, xs) == IF st.fit THEN Encs(st, xs) ELSE Encs(FitSt(st, xs), xs)
 
 ----------------------------------------------------------------------------
 (* alphabets *)
+Small == Size \in {"s", "g"}
 A1 == S(<<"a">>)
 B1 == S(<<"b">>)
 C1 == S(<<"c">>)
 S1 == S(<<"1">>)
-VOf(k, al) == CASE al = "abc"   -> (IF Size = "s" THEN <<A1, C1>> ELSE <<A1, B1, C1>>)
+VOf(k, al) == CASE al = "abc"   -> (IF Small THEN <<A1, C1>> ELSE <<A1, B1, C1>>)
                 [] al = "mixed" -> (IF k = "categorical" THEN <<S1, E, Q>> ELSE <<S1, I(1), None>>)
-                [] al = "onehot_missing" -> (IF Size = "s" THEN <<A1, C1, Q>> ELSE <<A1, C1, Q, E>>)
+                [] al = "onehot_missing" -> (IF Small THEN <<A1, C1, Q>> ELSE <<A1, C1, Q, E>>)
                 [] al = "ints"  -> <<I(0), I(2), I(3)>>
-                [] OTHER -> (CASE Size = "s" -> <<S(<<"1", ".", "5">>), Q, None>>
+                [] OTHER -> (CASE Small -> <<S(<<"1", ".", "5">>), Q, None>>
                                [] Size = "m" -> <<S(<<"1", ".", "5">>), Q, None, E, S(<<"x">>), I(2)>>
                                [] OTHER      -> <<S(<<"1", ".", "5">>), Q, None, E, S(<<"x">>), I(2), S(<<" ", "7", " ">>), S(<<" ", "?">>),
                                                   D(25, -1), D(-2, 0), B(1), Lst, I(-30), S(<<"1", "_", "0">>), S(<<"N", "a", "N">>), FNaN>>)
 V == VOf(Kind, Alpha)
 (* the lists given to fit / fit_encodes and to encodes *)
-LFOf(k, al) == CASE al = "abc"   -> (IF Size = "s" THEN {<<B1, A1, B1>>, <<A1, C1>>} ELSE {<<>>, <<B1, A1, B1>>, <<A1, C1>>})
+LFOf(k, al) == CASE al = "abc"   -> (IF Small THEN {<<B1, A1, B1>>, <<A1, C1>>} ELSE {<<>>, <<B1, A1, B1>>, <<A1, C1>>})
              [] al = "mixed" -> (IF k = "categorical" THEN {<<>>, <<S1, E, S1>>, <<Q, S1>>} ELSE {<<>>, <<I(1), S1, I(1)>>, <<None, S1>>})
              [] al = "onehot_missing" -> {<<C1, A1, C1>>, <<A1>>}               \* no missing marker among the fitting values (see FitSt)
              [] al = "ints"  -> {<<>>, <<I(0), I(1), I(2)>>, <<I(2), I(0)>>}      \* range(3) as synthetics.py fits its one hot actions
-             [] OTHER -> (IF Size = "s" THEN {<<>>, <<VOf(k, al)[1], VOf(k, al)[2], VOf(k, al)[1]>>} ELSE {<<>>, <<VOf(k, al)[1], VOf(k, al)[2], VOf(k, al)[1]>>, <<VOf(k, al)[3], VOf(k, al)[2]>>})
+             [] OTHER -> (IF Small THEN {<<>>, <<VOf(k, al)[1], VOf(k, al)[2], VOf(k, al)[1]>>} ELSE {<<>>, <<VOf(k, al)[1], VOf(k, al)[2], VOf(k, al)[1]>>, <<VOf(k, al)[3], VOf(k, al)[2]>>})
 LF == LFOf(Kind, Alpha)
-LE == CASE Alpha = "abc"   -> (IF Size = "s" THEN {<<>>, <<C1, A1>>} ELSE {<<>>, <<A1, B1, A1>>, <<C1, A1>>})
+LE == CASE Alpha = "abc"   -> (IF Small THEN {<<>>, <<C1, A1>>} ELSE {<<>>, <<A1, B1, A1>>, <<C1, A1>>})
         [] Alpha = "mixed" -> (IF Kind = "categorical" THEN {<<S1, S1>>, <<E, Q>>} ELSE {<<I(1), I(1)>>, <<S1, None>>})
-        [] Alpha = "onehot_missing" -> (IF Size = "s" THEN {<<Q, A1, E>>, <<C1, Q>>} ELSE {<<>>, <<Q, A1, E>>, <<C1, Q>>})
+        [] Alpha = "onehot_missing" -> (IF Small THEN {<<Q, A1, E>>, <<C1, Q>>} ELSE {<<>>, <<Q, A1, E>>, <<C1, Q>>})
         [] Alpha = "ints"  -> {<<I(0), I(1), I(2), I(3)>>, <<I(3), I(0)>>}
         [] OTHER -> (IF Size = "l" THEN {<<>>, V, <<V[2], V[1], V[2]>>} ELSE {<<>>, <<V[1], V[2], V[1]>>, <<V[3], V[2]>>})
 (* how object 1 is constructed: err_if_unknown, and `values` given to the constructor or not *)
 InitsOf(k, al) ==
   LET nf   == BaseOf(k) \in NeedFit
       errs == IF nf /\ BaseOf(k) # "categorical" THEN BOOLEAN ELSE {FALSE}
-      gv   == IF ~nf \/ WrappedOf(k) \/ Size = "s" THEN {} ELSE {xs \in LFOf(k, al) : xs # <<>>}
-  IN {[kind |-> k, alpha |-> al, err |-> e, given |-> 0, vals |-> <<>>] : e \in errs}
+      gv   == IF ~nf \/ WrappedOf(k) \/ Size = "s" THEN {} ELSE IF Size = "g" THEN {<<B1, A1, B1>>} ELSE {xs \in LFOf(k, al) : xs # <<>>}
+  IN {[kind |-> k, alpha |-> al, err |-> e, given |-> 0, vals |-> <<>>] : e \in (IF Size = "g" THEN {} ELSE errs)}
      \cup {[kind |-> k, alpha |-> al, err |-> e, given |-> 1, vals |-> xs] : e \in errs, xs \in gv}
 Fresh(err) == Obj(Base \notin NeedFit, <<>>, err, <<>>)
 Make(i) == IF i.given = 1 THEN FitSt(Fresh(i.err), i.vals) ELSE Fresh(i.err)          \* 177, 231, 270: "set is_fit==True"
